@@ -201,8 +201,7 @@ Section Dictify.
   Lemma elide_nil : forall d, elide [] d = d.
   Proof.
     intro d. unfold elide. induction d as [|[k v] r IH]; [reflexivity|]. cbn [filter fst snd].
-    replace (match k with VStr k0 => mem_bytes k0 [] | _ => false end) with false by (destruct k; reflexivity).
-    cbn [andb negb]. rewrite IH. reflexivity.
+    destruct k; cbn [mem_bytes existsb andb negb]; rewrite IH; reflexivity.
   Qed.
 
   Lemma elide_plain : forall ns d, forallb (fun kv => plain (fst kv) && plain (snd kv)) d = true ->
